@@ -495,6 +495,9 @@ def check(ctx):
             if d.kind == 'pack':
                 D.check_hooks_order(ctx, 'R13-hooks', d)
     _attempt(ctx, hooks_)
+    # Round 8: pack() of the result is the stored chunks in order, each once (C11 tobytes)
+    from .c11 import check as c11_check
+    _attempt(ctx, c11_check, parts=('tobytes',))
     from .c13 import check_freshness
     _attempt(ctx, check_freshness)
     ctx.floor('obligations', len(ctx.obs), 40)
